@@ -147,6 +147,16 @@ def obligation_text(ob):
                 i = z3.Int("small!i")
                 small.append(z3.ForAll([i], z3.Implies(z3.And(0 <= i, i < z3.Length(c)), z3.And(c[i] >= -12, c[i] <= 12))))
     txt = s.to_smt2()
+    core = getattr(ob, "core", None)
+    core_txt = None
+    if core is not None and len(core) < len(ob.hyps):
+        # the same goal from fewer hypotheses (sound to try first: fewer facts, easier instantiation)
+        s2 = z3.Solver()
+        for h in core:
+            s2.add(h)
+        s2.add(z3.Not(ob.goal))
+        core_txt = s2.to_smt2()
+    ob.core_txt = core_txt
     # a second query asking for a small counter-model (used only after the first one was sat)
     s.push()
     for z in small:
@@ -222,6 +232,10 @@ def discharge_text(item):
         return {"status": "unsat", "solver": "simplifier", "seconds": 0.0}
     T = item["timeout"]
     first = min(3.0, T)
+    if item.get("core_smt2"):
+        st0, _, _ = _run_text(item["core_smt2"], first, None)
+        if st0 == "unsat":
+            return {"status": "unsat", "solver": "z3-5.1.0", "seconds": round(time.time() - t0, 3)}
     st, extra, why = _run_text(item["smt2"], first, item.get("names"))
     if st == "unsat":
         return {"status": "unsat", "solver": "z3-5.1.0", "seconds": round(time.time() - t0, 3)}
